@@ -17,11 +17,19 @@
   OBLIGATION c06_witness_omitted_variable_skips_default
   OBLIGATION c06_witness_null_becomes_singleton_list
   OBLIGATION c06_witness_variable_values_not_coerced
-  OPEN c06_value
-  OPEN c06_request
-  OPEN c06_typed
+  Value level (lists incl. single-value wrapping and nested lists, struct defaults, oneof objects),
+  for well-formed tables (`wfTable`) and values whose object literals have distinct, declared keys
+  (`shapeOk`, what `is_valid_input_value` checks on a map before anything is parsed):
+  OBLIGATION c06_value_wf
+  every value a resolver is handed is a value of the declared Rust type (well-formed tables):
+  OBLIGATION c06_typed_wf
+  The statements as first written (`c06_value`, `c06_typed`, `c06_request`, kept as `def … : Prop`)
+  are REFUTED by kernel-checked counterexamples; the request-level refinement is NOT established:
+  OBLIGATION c06_value_false
+  OBLIGATION c06_typed_false
+  OBLIGATION c06_request_false
 -/
-import AGV.Lemmas.Coerce
+import AGV.Lemmas.CoerceTyped
 
 namespace AGV.Props.C06
 open AGV.Core
@@ -171,21 +179,126 @@ theorem c06_witness_variable_values_not_coerced :
     ∧ (run Defects.none T0 (q ⟨"v", .nonNull (.named "Int"), none⟩ "n" "x") []).status = .reqerr := by
   refine ⟨rfl, rfl, rfl⟩
 
--- ------------------------------------------------------------------ open
+-- ------------------------------------------------------------------ values: lists, structs, oneof objects
 
-/-- value-level refinement for lists and input objects (all values, every table whose defaults
-    denote their Rust defaults): proved above for null, absent and leaf values; the inductive
-    step through `Vec` wrapping, struct defaults and oneof objects is checked by the
-    correspondence only -/
+/-- value-level refinement as first stated, for ALL tables and values.  FALSE (`c06_value_false`):
+    the generated struct `parse` ignores undeclared keys (and later duplicates of a key), which
+    the specification's input coercion rejects; `is_valid_input_value` refuses them before
+    anything is parsed, so the statement needs that shape as a hypothesis (`c06_value_wf`). -/
 def c06_value : Prop :=
   ∀ (T : Table) (rty : RTy) (v : GValue),
     (∀ n o fs f d, T.find? n = some (.input o fs) → f ∈ fs → f.default = some d →
         fieldDefault Defects.none T f d = some (view T f.ty d)) →
     parseD Defects.none T rty v = (coerce T true rty.gql v).map (view T rty)
 
-/-- request level: for a valid operation, a field whose specified coercion succeeds is invoked
-    with exactly those arguments unless another field of the request fails; a field whose
-    coercion fails is not invoked and the response has an error -/
+/-- **Value-level refinement.**  For every well-formed table (field names of an input object
+    pairwise distinct, a oneof variant of non-null type), every Rust type and every value whose
+    object literals carry pairwise distinct, declared keys: the repaired `InputType::parse`
+    (`Vec` incl. the single-value rule and nested lists, `Option`, `MaybeUndefined`, derived input
+    objects with field defaults, oneof objects) succeeds exactly when the specification's input
+    coercion for the declared GraphQL type does, and then delivers the Rust view of the coerced
+    value — provided the schema defaults of input fields denote their Rust defaults (`hd`). -/
+theorem c06_value_wf (T : Table) (rty : RTy) (v : GValue) (hwf : wfTable T = true)
+    (hd : ∀ n o fs f d, T.find? n = some (.input o fs) → f ∈ fs → f.default = some d →
+        fieldDefault Defects.none T f d = some (view T f.ty d))
+    (hs : shapeOk T rty.gql v = true) :
+    parseD Defects.none T rty v = (coerce T true rty.gql v).map (view T rty) :=
+  parse_value T (fieldDefault Defects.none T) hwf hd v rty hs
+
+theorem find_mem {T : Table} {n : String} {d : NDef} (h : T.find? n = some d) : (n, d) ∈ T.types := by
+  simp only [Table.find?, Option.map_eq_some_iff] at h
+  obtain ⟨nd, hnd, rfl⟩ := h
+  have h1 := List.mem_of_find?_eq_some hnd
+  have h2 : nd.1 = n := by simpa using List.find?_some hnd
+  rw [← h2]; exact h1
+
+/-- a struct with an optional field, a defaulted field and a nested list field; a oneof object -/
+def T2 : Table :=
+  { types := [("Int", .scalar),
+              ("I", .input false [⟨"a", .opt (.named "Int"), none⟩, ⟨"b", .named "Int", some (.int 5)⟩,
+                                  ⟨"c", .vec (.vec (.named "Int")), none⟩]),
+              ("O", .input true [⟨"x", .opt (.named "Int"), none⟩, ⟨"y", .opt (.named "I"), none⟩])],
+    fields := [⟨"f", [⟨"x", .opt (.named "I"), none⟩]⟩] }
+
+/-- the hypotheses of `c06_value_wf` are met by `T2` and the value `{y: {c: 1}}` at `[O!]!`: the
+    single value is wrapped into a list, `c: 1` into `[[1]]`, `b` takes its default, `a` is `None` -/
+theorem T2_defaults : ∀ n o fs f d, T2.find? n = some (.input o fs) → f ∈ fs → f.default = some d →
+    fieldDefault Defects.none T2 f d = some (view T2 f.ty d) := by
+  intro n o fs f d hfind hf hdef
+  have hmem := find_mem hfind
+  simp only [T2, List.mem_cons, Prod.mk.injEq, reduceCtorEq, and_false, false_or, List.mem_nil_iff, or_false,
+    NDef.input.injEq] at hmem
+  rcases hmem with ⟨rfl, rfl, rfl⟩ | ⟨rfl, rfl, rfl⟩
+  · simp only [List.mem_cons, List.mem_nil_iff, or_false] at hf
+    rcases hf with rfl | rfl | rfl
+    · cases hdef
+    · cases hdef; rfl
+    · cases hdef
+  · simp only [List.mem_cons, List.mem_nil_iff, or_false] at hf
+    rcases hf with rfl | rfl <;> cases hdef
+
+example : wfTable T2 = true ∧
+    shapeOk T2 (RTy.vec (.named "O")).gql (.obj [("y", .obj [("c", .int 1)])]) = true ∧
+    parseD Defects.none T2 (.vec (.named "O")) (.obj [("y", .obj [("c", .int 1)])]) =
+      some (.list [.obj [("y", .obj [("a", .null), ("b", .int 5), ("c", .list [.list [.int 1]])])]]) :=
+  ⟨by decide, by decide, by rfl⟩
+
+/-- `c06_value` fails on the well-formed table `T2`: `{c: [], z: 1}` at the struct `I` (which has
+    no field `z`) is parsed to `I { a: None, b: 5, c: [] }`, the specification rejects the
+    undeclared key -/
+theorem c06_value_false : ¬ c06_value := by
+  intro h
+  have h := h T2 (.named "I") (.obj [("c", .list []), ("z", .int 1)]) T2_defaults
+  have h1 : parseD Defects.none T2 (.named "I") (.obj [("c", .list []), ("z", .int 1)]) =
+      some (.obj [("a", .null), ("b", .int 5), ("c", .list [])]) := by rfl
+  have h2 : (coerce T2 true (RTy.named "I").gql (.obj [("c", .list []), ("z", .int 1)])).map
+      (view T2 (.named "I")) = none := by rfl
+  rw [h1, h2] at h
+  cases h
+
+-- ------------------------------------------------------------------ typed
+
+/-- every value a resolver is handed is a value of the declared Rust type — as first stated, for
+    ALL tables.  FALSE (`c06_typed_false`) for a table no derive macro produces: a oneof variant of
+    nullable type (`MaybeUndefined<T>`) lets `null` through; see `c06_typed_wf`. -/
+def c06_typed : Prop :=
+  ∀ (T : Table) (rty : RTy) (v : GValue) (r : RV),
+    parseD Defects.none T rty v = some r → typed T rty r = true
+
+/-- **Well-typedness.**  For every well-formed table, every Rust type and EVERY value (no shape
+    hypothesis): whatever the repaired `InputType::parse` returns — for an argument, a list
+    item, a struct field incl. its default and the `None`/`Undefined` of an absent field, a oneof
+    variant — is a value of the Rust type it was parsed for. -/
+theorem c06_typed_wf (T : Table) (hwf : wfTable T = true) (rty : RTy) (v : GValue) (r : RV)
+    (h : parseD Defects.none T rty v = some r) : typed T rty r = true :=
+  parseD_typed T hwf rty v r h
+
+example : wfTable T2 = true ∧ ∃ r, parseD Defects.none T2 (.vec (.named "O")) (.obj [("y", .obj [("c", .int 1)])]) = some r :=
+  ⟨by decide, _, rfl⟩
+
+def T3 : Table :=
+  { types := [("Int", .scalar), ("O", .input true [⟨"m", .mu (.named "Int"), none⟩])], fields := [] }
+
+theorem c06_typed_false : ¬ c06_typed := by
+  intro h
+  have h := h T3 (.named "O") (.obj [("m", .null)]) (.obj [("m", .null)]) (by rfl)
+  have h2 : typed T3 (.named "O") (.obj [("m", .null)]) = false := by rfl
+  rw [h2] at h
+  cases h
+
+-- ------------------------------------------------------------------ request level
+
+/-- request level, as first stated: for a valid operation, a field whose specified coercion
+    succeeds is invoked with exactly those arguments unless another field of the request fails; a
+    field whose coercion fails is not invoked and the response has an error.
+    FALSE of the repaired model (`c06_request_false`), on the well-formed table `T4`: ArgumentsOfCorrectType
+    skips an argument literal that mentions a variable without supplied value (`into_const_with`
+    fails), so nothing checks the keys of `{a: $v, zzz: 1}`; the generated `parse` ignores the
+    undeclared key and the resolver is invoked, where the specification fails the field.  (Also a
+    string literal at an enum type is accepted by validation and `parse_enum`, the specification
+    accepts a string for an enum only from JSON variables.)  A corrected request-level statement
+    needs these excluded and VariablesInAllowedPosition for variable-bound arguments; it is not
+    formulated here — the request level is checked by the correspondence only. -/
 def c06_request : Prop :=
   ∀ (T : Table) (op : OpDef) (raw : List (String × GValue)),
     (∀ vd ∈ op.vars, True) →
@@ -198,9 +311,24 @@ def c06_request : Prop :=
         | some args => p.2.2 = .seen args ∨ (fs.any (·.2.isNone) ∧ (p.2.2 = .err ∨ p.2.2 = .notInvoked))
         | none => p.2.2 = .err ∨ p.2.2 = .notInvoked
 
-/-- every value a resolver is handed is a value of the declared Rust type -/
-def c06_typed : Prop :=
-  ∀ (T : Table) (rty : RTy) (v : GValue) (r : RV),
-    parseD Defects.none T rty v = some r → typed T rty r = true
+/-- one struct `I { a: Option<i32> }`, one root field `f(x: Option<I>)` -/
+def T4 : Table :=
+  { types := [("Int", .scalar), ("I", .input false [⟨"a", .opt (.named "Int"), none⟩])],
+    fields := [⟨"f", [⟨"x", .opt (.named "I"), none⟩]⟩] }
+
+/-- `query($v: Int){ f(x: {a: $v, zzz: 1}) }` without a value for `v` -/
+def opUnknownKey : OpDef :=
+  { ty := .query, name := none, vars := [⟨"v", .named "Int", none⟩], dirs := [], sels := [.field none "f" [("x", .obj [("a", .var "v"), ("zzz", .int 1)])] [] [] ⟨0, 0⟩] }
+
+theorem c06_request_false : ¬ c06_request := by
+  intro h
+  have h := h T4 opUnknownKey [] (fun _ _ => trivial)
+  have hreq : request T4 opUnknownKey [] = some [("f", none)] := by rfl
+  have hrun : (run Defects.none T4 opUnknownKey []).fields =
+      [("f", .seen [("x", .obj [("a", .null)])])] := by rfl
+  rw [hreq] at h
+  simp only [hrun] at h
+  have h := (h (("f", none), ("f", .seen [("x", .obj [("a", .null)])])) (by simp)).2
+  rcases h with h | h <;> cases h
 
 end AGV.Props.C06
